@@ -288,4 +288,112 @@ theorem computeModelSize_sum (c : SzCfg)
       rw [hpa]
       ring
 
+/-! ## V20 — the size of a trial is a function of the TRIAL model only (object histories) -/
+
+theorem layerConfig_default (c : SzCfg) (hc : c.config = [("default", ["parameters", "activations"])])
+    (cls : String) : layerConfig c cls = some ["parameters", "activations"] := by
+  unfold layerConfig
+  rw [hc]
+  by_cases hd : cls = "default"
+  · simp [List.lookup, hd]
+  · simp [List.lookup]
+    cases hx : (cls == "default") with
+    | true => simp at hx; exact absurd hx hd
+    | false => simp
+
+/-- the row the property prescribes for one layer: Σ weight tensors elements × bits, output elements ×
+    bits, and their sum -/
+def rowSpec (c : SzCfg) (L : SzLayer) : SizeRow :=
+  { name := L.name,
+    parameters := (L.weights.map fun w => weightBits c L w * (w.1 : Int)).sum,
+    activations := actBitsSpec c L * (L.outElems : Int),
+    total := (L.weights.map fun w => weightBits c L w * (w.1 : Int)).sum + actBitsSpec c L * (L.outElems : Int) }
+
+/-- row by row: with every class counted, `model_size_dict` holds for every layer of the measured
+    model exactly its own tensors' elements × bits -/
+theorem computeModelSize_rows (c : SzCfg)
+    (hc : c.config = [("default", ["parameters", "activations"])]) :
+    ∀ (layers : List SzLayer), (∀ L ∈ layers, InScope L) →
+      ∃ r, computeModelSize c layers = some r ∧ r.rows = layers.map (rowSpec c) ∧
+        r.total = (layers.map (layerBits c)).sum ∧ r.total = r.pSize + r.aSize
+  | [], _ => ⟨{}, rfl, rfl, rfl, rfl⟩
+  | L :: t, h => by
+    obtain ⟨r, hr, hrows, htot, hpa⟩ :=
+      computeModelSize_rows c hc t (fun L' hL' => h L' (List.mem_cons_of_mem _ hL'))
+    obtain ⟨ha, hp⟩ := layer_total c L (h L (by simp))
+    have hlc := layerConfig_default c hc L.cls
+    have hcm : computeModelSize c (L :: t) = some
+        { total := r.total + (1 * paramSize c L + 1 * (actBitsSpec c L * (L.outElems : Int))),
+          pSize := r.pSize + 1 * paramSize c L,
+          aSize := r.aSize + 1 * (actBitsSpec c L * (L.outElems : Int)),
+          rows := { name := L.name, parameters := paramSize c L,
+                    activations := actBitsSpec c L * (L.outElems : Int),
+                    total := 1 * paramSize c L + 1 * (actBitsSpec c L * (L.outElems : Int)) } :: r.rows } := by
+      unfold computeModelSize
+      rw [hr]
+      simp only [hlc, ha]
+      rfl
+    refine ⟨_, hcm, ?_, ?_, ?_⟩
+    · simp only [List.map_cons, hrows, rowSpec, hp, one_mul]
+    · simp only [List.map_cons, List.sum_cons, layerBits, ← htot, hp]
+      ring
+    · simp only
+      rw [hpa]
+      ring
+
+theorem getTrialM_eq {α : Type} (ofInt : Int → α) (o : FFBM α) (layers : List SzLayer) :
+    getTrialM ofInt o layers = (computeModelSize o.cfg layers).map fun s =>
+      (ofInt s.total, { o with base := { o.base with trialSize := some (ofInt s.total) }, trialStats := some s }) := by
+  unfold getTrialM getTrial
+  cases computeModelSize o.cfg layers <;> rfl
+
+theorem stepM_cfg {α : Type} (ofInt : Int → α) (mul : α → α → α) (o : FFBM α) (e : MEv α) :
+    (stepM ofInt mul o e).2.cfg = o.cfg := by
+  cases e with
+  | ref ls =>
+    unfold stepM getReferenceM
+    cases h0 : o.base.referenceSize with
+    | some r => simp
+    | none =>
+      cases h1 : computeModelSize o.cfg ls with
+      | none => simp [h1]
+      | some s => simp [h1]
+  | trial ls =>
+    unfold stepM getTrialM
+    cases h1 : computeModelSize o.cfg ls with
+    | none => simp [h1]
+    | some s => simp [h1]
+  | setStress s => rfl
+
+theorem stateM_cfg {α : Type} (ofInt : Int → α) (mul : α → α → α) (evs : List (MEv α)) :
+    ∀ o : FFBM α, (stateM ofInt mul o evs).cfg = o.cfg := by
+  induction evs with
+  | nil => intro o; rfl
+  | cons e t ih =>
+    intro o
+    unfold stateM
+    simp only [List.foldl_cons]
+    exact (ih _).trans (stepM_cfg ofInt mul o e)
+
+/-! ### Dense chains -/
+
+theorem denseLayer_plain_cls (n : Nat) (d : DenseSpec) (hq : d.q = none) : (denseLayer n d).cls = "Dense" := by
+  simp [denseLayer, hq]
+
+/-- an UNQUANTIZED Dense layer fed by `n` features: `ref_bits × (n × units [+ units])` -/
+theorem paramSize_denseLayer_plain (c : SzCfg) (n : Nat) (d : DenseSpec) (hq : d.q = none) :
+    paramSize c (denseLayer n d) =
+      c.refBits * ((n * d.units : Nat) : Int) + (if d.useBias then c.refBits * (d.units : Int) else 0) := by
+  have hp : (denseLayer n d).cls ∈ PLAIN := by rw [denseLayer_plain_cls n d hq]; simp [PLAIN]
+  rw [paramSize_plain c _ hp]
+  cases hb : d.useBias <;> simp [denseLayer, hb]
+
+/-- `units` outputs, `ref_bits` each, unless the activation is linear -/
+theorem actSize_denseLayer_plain (c : SzCfg) (n : Nat) (d : DenseSpec) (hq : d.q = none) (ha : d.actBits = none) :
+    actSize c (denseLayer n d) = some (if d.actName = "linear" then 0 else c.refBits * (d.units : Int)) := by
+  have hcls := denseLayer_plain_cls n d hq
+  unfold actSize
+  rw [hcls]
+  by_cases hl : d.actName = "linear" <;> simp [denseLayer, ha, hl, PLAIN]
+
 end QKV.Forgiving
